@@ -226,4 +226,56 @@ theorem mem_perms_of_perm {α : Type} {l l' : List α} (h : l'.Perm l) : l' ∈ 
     simp only [perms, mem_flatMap]
     exact ⟨a ++ b, ih hab, mem_insertEverywhere x a b⟩
 
+/-! ### map lookup and the smallest-path choice of `restorePayeeTemplate` -/
+
+theorem lookup_eq_some_iff {ν : Type} {σ : Entries String ν} (nd : (keys σ).Nodup) (k : String) (v : ν) :
+    lookup σ k = some v ↔ (k, v) ∈ σ := by
+  induction σ with
+  | nil => simp [lookup]
+  | cons x xs ih =>
+    simp only [keys, map_cons, nodup_cons, mem_map, not_exists, not_and] at nd
+    have ih' := ih nd.2
+    unfold lookup at ih' ⊢
+    by_cases hx : x.1 = k
+    · simp only [find?_cons, hx, beq_self_eq_true, Option.map_some, Option.some.injEq, mem_cons]
+      constructor
+      · intro h; left; rw [← h, ← hx]
+      · rintro (h | h)
+        · rw [← h]
+        · exact absurd hx (by intro e; exact nd.1 (k, v) h (by simp [e]))
+    · have hb : (x.1 == k) = false := by simpa using hx
+      simp only [find?_cons, hb, mem_cons]
+      rw [ih']
+      constructor
+      · exact Or.inr
+      · rintro (h | h)
+        · exact absurd (by rw [← h]) hx
+        · exact h
+
+theorem lookup_perm {ν : Type} {σ σ' : Entries String ν} (h : σ.Perm σ') (nd : (keys σ).Nodup) (k : String) :
+    lookup σ k = lookup σ' k := by
+  have nd' : (keys σ').Nodup := (keys_perm h).nodup nd
+  apply Option.ext
+  intro v
+  rw [lookup_eq_some_iff nd, lookup_eq_some_iff nd', h.mem_iff]
+
+/-- `SetFileIndex` refuses the empty path, so "" is free to mean "none yet". -/
+theorem bestPathStep_comm {τ : Type} (payee z : String) (x y : String × Entries String τ)
+    (nx : x.1 ≠ "") (ny : y.1 ≠ "") :
+    bestPathStep payee (bestPathStep payee z x) y = bestPathStep payee (bestPathStep payee z y) x := by
+  unfold bestPathStep
+  generalize x.2.any (·.1 == payee) = hx
+  generalize y.2.any (·.1 == payee) = hy
+  revert nx ny
+  generalize x.1 = px
+  generalize y.1 = py
+  intro nx ny
+  simp only [beq_iff_eq, Bool.and_eq_true, Bool.or_eq_true, decide_eq_true_eq]
+  have := @String.lt_irrefl
+  grind [String.lt_trans, String.le_antisymm, String.not_lt, String.le_total, String.lt_asymm]
+
+theorem bestPath_perm {τ : Type} {σ σ' : Entries String (Entries String τ)} (h : σ.Perm σ')
+    (ne : ∀ f ∈ σ, f.1 ≠ "") (payee : String) : bestPath σ payee = bestPath σ' payee :=
+  h.foldl_eq' (fun x hx y hy z => bestPathStep_comm payee z x y (ne x hx) (ne y hy)) _
+
 end HL.MapOrder
